@@ -72,11 +72,11 @@ PROPS = {
         "assumptions": COMMON_ASSUME + ["sync.Pool modelled as a LIFO free list; pool states are reached by real preludes (so they replay natively)", "context.WithValue/Value executed from their real SSA (reflectlite.TypeOf(key).Comparable() stubbed true)"],
     },
     "C06": {
-        "groups": [{"name": "json", "tags": "verif", "run": "^VH_C06_"}],
+        "groups": [{"name": "json", "tags": "verif", "run": "^VH_C06_|^VH_C05_(L1_with|L3_hook|L4_writeset)$|^VH_C03_sibling_hooks$|^VH_C15_history$", "flags": {"params": "ops=4"}}],
         "level": "other",
         "engine_only_kinds": ["use-after-put", "double-put"],
         "engine_only_msgs": "never writes into",
-        "explanation": "Thread-modular ownership protocol decided by symbolic execution of every finalizer path (not schedule exploration): O1 each pooled object is returned at most once and no field of it is accessed afterwards (the engine marks objects released at Put and checks every later field access in zerolog code); O2 (context only) building and writing an event never writes into the logger's context buffer, not even transiently (engine write-set tracking; engine-only observation); O3 exactly one write per event, complete line, event still owned during the write and pooled after it; O4 consuming a Dict/Array copies its bytes (backing-array identity); O5 buffers above 64 KiB are not pooled; O7 SyncWriter holds its mutex around the inner call and releases it on the panic path. Given sync.Pool's contract these imply each goroutine builds and writes its event in memory no other goroutine touches. Goroutine interleavings, data races on configuration globals and blocking writers are outside the claim.",
+        "explanation": "Thread-modular ownership protocol decided by symbolic execution of every finalizer path (not schedule exploration): O1 each pooled object is returned at most once and no field of it is accessed afterwards (the engine marks objects released at Put and checks every later field access in zerolog code); O2 (context only) building and writing an event never writes into the logger's context buffer, not even transiently (engine write-set tracking; engine-only observation); O2b no two loggers share writable state (the derivation lemmas VH_C05_L1/L3/L4 and VH_C03_sibling_hooks are part of this check too), pooled line buffers are empty when reused (VH_C15_history); O3 exactly one write per event, complete line, event still owned during the write and pooled after it; O4 consuming a Dict/Array copies its bytes (backing-array identity); O5 buffers above 64 KiB are not pooled; O7 SyncWriter holds its mutex around the inner call and releases it on the panic path. Given sync.Pool's contract these imply each goroutine builds and writes its event in memory no other goroutine touches. Goroutine interleavings, data races on configuration globals and blocking writers are outside the claim.",
         "bounds": {"paths": "2 logger shapes x 6 event bodies (nested Dict/Array/Object/Fields/Errs) x 4 finalizers; write-error and ErrorHandler paths; SyncWriter over plain and level writers x Write/WriteLevel/Close x panicking or not"},
         "assumptions": COMMON_ASSUME + ["sync.Pool modelled as a LIFO free list; use-after-put, double-put and write-set observations (never writes into ...) are observed by the engine only (they cannot be confirmed by native replay and are reported without it)"],
     },
@@ -135,8 +135,8 @@ PROPS = {
         "assumptions": COMMON_ASSUME + ["threads are interleaved at visible operations only (sync/atomic, Mutex, Cond, channel, WaitGroup, time.Sleep, go); code between two visible operations of a thread is assumed not to race with other threads", "package context's own synchronisation is trusted: its operations are atomic steps", "sync.Pool (bufPool) is a LIFO free list; time.Sleep = 'time passes when nothing else can run'", "schedule counterexamples are reported from the engine's exploration (kinds assert/deadlock are engine-only for these properties: the native replay cannot force a schedule without instrumenting the diode sources)", "fewer than 2^64 ring positions are claimed in the life of a diode"],
     },
     "C11": {
-        "groups": [{"name": "diode", "tags": "verif", "run": "^VH_C10_((waiter|poller)_(1x1|1x2|1x3|2x1)_s[12]_(fresh|steady)_close|failsink_(waiter|poller))$", "flags": {"spin-limit": 200000, "harness-timeout": 200, "max-paths": 150000, "witnesses": 1},
-                    "quick": {"preempt": 2, "run": "^VH_C10_(((poller_(1x1|1x2|1x3|2x1)_s[12]_fresh)|(poller_(1x1|1x2)_s[12]_steady)|(waiter_(1x1|1x2)_s[12]_fresh))_close|failsink_(waiter|poller))$"}, "thorough": {"preempt": 3, "harness-timeout": 900, "max-paths": 5000000}}],
+        "groups": [{"name": "diode", "tags": "verif", "run": "^VH_C10_((waiter|poller)_(1x1|1x2|1x3|2x1)_s[12]_(fresh|steady)_close|failsink_(waiter|poller)|bigbuf_(waiter|poller))$", "flags": {"spin-limit": 200000, "harness-timeout": 200, "max-paths": 150000, "witnesses": 1},
+                    "quick": {"preempt": 2, "run": "^VH_C10_(((poller_(1x1|1x2|1x3|2x1)_s[12]_fresh)|(poller_(1x1|1x2)_s[12]_steady)|(waiter_(1x1|1x2)_s[12]_fresh))_close|failsink_(waiter|poller)|bigbuf_poller)$"}, "thorough": {"preempt": 3, "harness-timeout": 900, "max-paths": 5000000}}],
         "level": "model_checking", "msg_filter": "^C11", "engine_only_kinds": ["assert", "deadlock", "panic", "livelock"], "witness_replays": {"quick": 1, "thorough": 1},
         "bounds": {"quick": "Close phase: after all Writes returned and Close returned, delivered + reported >= written (== when no producer retried), nothing dropped while fewer messages than the ring size are outstanding; configurations 1x1, 1x2, 1x3, 2x1 x size {1,2} x {fresh, steady(symbolic)}, waiter and poller; preemption bound 2 + sleep sets",
                    "thorough": "adds 2x2, size 3, preemption bound 3"},
@@ -346,7 +346,7 @@ HARNESS_FILES = {
     "C03": {"json": _BASE + r"|^_root/zz_verif_c03\.go$"},
     "C04": {"json": _BASE + r"|^_root/zz_verif_c04\.go$"},
     "C05": {"json": _BASE + r"|^_root/zz_verif_c0[35]\.go$"},
-    "C06": {"json": _BASE + r"|^_root/zz_verif_c(06|16)\.go$"},
+    "C06": {"json": _BASE + r"|^_root/zz_verif_c(03|05|06|15|16)\.go$"},
     "C08": {"cbor": _CBOR, "wiring": _BASE},
     "C09": {"prim": _CBOR, "event": _BASE},
     "C10": {"diode": _DIODE}, "C11": {"diode": _DIODE}, "C12": {"diode": _DIODE},
